@@ -27,6 +27,8 @@ SinceAdd1(a) == Min(a + 1, Caps.since)  \* saturating_add(1) of `since` / `ticks
 \* u16::MAX for the *unchecked* additions (C02 panic sites); the C02 capacity instances scale it down via Caps.u16max
 U16Max == IF "u16max" \in DOMAIN Caps THEN Caps.u16max ELSE 65535
 KeysInRow == 767   \* src: parser/src/layers.rs:12 KEYS_IN_ROW (length of a layer row and of src_keys)
+\* u16 saturating_add of `delay + ticks` (layout.rs decompose_chord_into_action_queue, waiting_into_hold/tap/timeout, fix 871d8af)
+SatAddU16(a, b) == Min(a + b, U16Max)
 
 \* ----- generic sequence helpers -------------------------------------------------
 FilterSeq(s, P(_)) == SelectSeq(s, P)
@@ -125,12 +127,15 @@ ActiveHeldLayers(L) ==
   LET sel == FilterSeq(L.states, LAMBDA s : s.t = "lm") IN
   [i \in DOMAIN sel |-> sel[Len(sel) + 1 - i].a]
 
-\* src: layout.rs:2026 trans_resolution_layer_order.  heapless `collect` into a 12-entry
-\* Vec panics when more than 12 layers are held; `push` beyond capacity is ignored.
+\* src: layout.rs trans_resolution_layer_order.  The held layers are `take(MAX_ACTIVE_LAYERS - 2)`n (the most recently
+\* activated ones, fix 4b8ada1), which leaves room for the two fallback entries; `push` beyond capacity is ignored.
+\* Model mutant Bug = "c02_layer_collect": the code before the fix - heapless `collect` of all held layers into the
+\* 12-entry Vec, a panic when more than 12 layers are held.
 TransOrderRaw(L) ==
   LET cur == CurrentLayer(L) IN
   IF Opts.trans_v2
-  THEN LET held == ActiveHeldLayers(L)
+  THEN LET all == ActiveHeldLayers(L)
+           held == IF Bug = "c02_layer_collect" THEN all ELSE SubSeq(all, 1, Min(Len(all), SatSub(Caps.stack, 2)))
            v1 == IF Len(held) < Caps.stack THEN Append(held, L.dl) ELSE held
            v2 == IF Opts.delegate /\ cur # 0 /\ L.dl # 0 /\ Len(v1) < Caps.stack
                  THEN Append(v1, 0) ELSE v1
@@ -567,11 +572,15 @@ DoAction(L00, aid0, dynk, x, y, delay, isOs, stack0) ==
          LET r == DoActionSeq(UpdateCoord(L0, x, y), a.acs, x, y, delay, isOs, stack, NoCe) IN
          [L |-> [r.L EXCEPT !.rpt = self], ce |-> r.ce]
     [] a.t = "seq" ->
-         LET L1 == [L0 EXCEPT !.seqs = PushBackWrap(@, NewSeq(aid), Caps.seqs).q] IN
+         \* src: layout.rs Sequence arm (fix a8a26da): not started while the ring is full;
+         \* Bug = "seq_ring_wraps" = the behaviour before the fix (the oldest cursor is dropped)
+         LET L1 == IF Len(L0.seqs) < Caps.seqs \/ Bug = "seq_ring_wraps"
+                   THEN [L0 EXCEPT !.seqs = PushBackWrap(@, NewSeq(aid), Caps.seqs).q] ELSE L0 IN
          [L |-> [OsOther(L1, isOs, x, y).L EXCEPT !.rpt = self], ce |-> NoCe]
     [] a.t = "rseq" ->
-         LET L1 == [L0 EXCEPT !.seqs = PushBackWrap(@, NewSeq(aid), Caps.seqs).q]
-             L2 == PushState(L1, St("rs", aid, x, y, 0))
+         LET L1 == IF Len(L0.seqs) < Caps.seqs \/ Bug = "seq_ring_wraps"
+                   THEN [L0 EXCEPT !.seqs = PushBackWrap(@, NewSeq(aid), Caps.seqs).q] ELSE L0
+             L2 == PushState(L1, St("rs", aid, x, y, 0))     \* the repeating state is pushed in any case
          IN [L |-> [OsOther(L2, isOs, x, y).L EXCEPT !.rpt = self], ce |-> NoCe]
     [] a.t = "cancelseq" ->
          LET L1 == [L0 EXCEPT !.seqs = <<>>, !.states = FilterSeq(@, LAMBDA s : s.t # "fk")] IN
